@@ -2013,6 +2013,9 @@ class Change(Output):
 
             for i in range(len(bins)):
                 I = (change > edges[i]) & (change <= edges[i + 1])
+                if i == 0:
+                    # The first bin includes its lower edge (the most negative change)
+                    I = I | (change == edges[0])
                 y[i] = verif.util.nanmean(err[I])
                 x[i] = verif.util.nanmean(change[I])
             mpl.plot(x, y, label=labels[f], **opts)
